@@ -41,7 +41,9 @@ UlpSlack(mode, v) == IF mode = "float" THEN "4" ** RUlp(v) ELSE "1E-30" ** ("1" 
 \*       every well-formed call is accepted
 C13Rate(e) ==
   LET wf == WFRateCall(e.model.kind, Call(e))
-  IN  IF wf THEN (IF Ok(e) THEN {} ELSE {"C13.wellformed_rejected:" \o e.out.exc})
+      \* acceptance is demanded on the numeric domain of the properties (a prior sigma of 0 with tau = 0 is not in it)
+      dom == wf /\ Computable(e.model, Call(e)) /\ InDomainRate(e.model, Call(e))
+  IN  IF wf THEN (IF Ok(e) \/ ~dom THEN {} ELSE {"C13.wellformed_rejected:" \o e.out.exc})
       ELSE (IF Ok(e) THEN {"C13.malformed_accepted"} ELSE {})
            \cup (IF ~Ok(e) /\ e.out.exc \notin {"TypeError", "ValueError"} THEN {"C13.exception_class:" \o e.out.exc} ELSE {})
            \cup (IF e.after # e.teams THEN {"C13.rating_modified"} ELSE {})
@@ -49,7 +51,8 @@ C13Rate(e) ==
 
 C13Predict(e) ==
   LET wf == WFTeams(e.model.kind, e.teams)
-  IN  IF wf THEN (IF Ok(e) THEN {} ELSE {"C13.wellformed_rejected:" \o e.out.exc})
+      dom == wf /\ PredictComputable(e.model, e.teams) /\ InDomainPredict(e.model, e.teams)
+  IN  IF wf THEN (IF Ok(e) \/ ~dom THEN {} ELSE {"C13.wellformed_rejected:" \o e.out.exc})
       ELSE (IF Ok(e) THEN {"C13.malformed_accepted"} ELSE {})
            \cup (IF ~Ok(e) /\ e.out.exc \notin {"TypeError", "ValueError"} THEN {"C13.exception_class:" \o e.out.exc} ELSE {})
            \cup (IF e.after # e.teams THEN {"C13.rating_modified"} ELSE {})
